@@ -226,7 +226,10 @@ impl RectSpace {
             Some(k) => LONG_POS[k as usize % 3].to_vec(),
             None => up,
         };
-        let mut unk = format!("HIRAGANA,{},{},{},{}\n", c.unk.0, c.unk.1, c.unk.2, up.join(","));
+        // two valid lines first: they use the largest legal left id and the largest legal right id (different numbers
+        // when the matrix is not square), so the ids of the line under test have been seen before - in the other role
+        let mut unk = format!("KANJI,{},0,500,{}\nKANJI,0,{},501,{}\n", self.m - 1, P_NOUN.join(","), self.n - 1, P_NOUN.join(","));
+        unk.push_str(&format!("HIRAGANA,{},{},{},{}\n", c.unk.0, c.unk.1, c.unk.2, up.join(",")));
         if c.unk_twin.is_some() {
             let mut twin: Vec<&str> = P_NOUN.to_vec();
             twin[5] = "別";
